@@ -875,6 +875,17 @@ class Item:
             res.append((m.start(), o, e))
         return res
 
+    def loop_ordinal(self, fn_name, regex):
+        """Ordinal of the one loop of fn_name whose text (header and body) matches regex — for units whose loop annotations should
+        stay on their loops when a change inserts another loop before them."""
+        ls = self._loops(fn_name)
+        hits = [k for k, (b, o, e) in enumerate(ls) if re.search(regex, self.text[b:e], re.S)]
+        # a loop that contains another matching loop also matches: keep the innermost ones
+        hits = [k for k in hits if not any(j != k and ls[k][0] <= ls[j][0] and ls[j][2] <= ls[k][2] for j in hits)]
+        if len(hits) != 1:
+            raise ExtractError('%s: %d loops of %s match /%s/ (expected one)' % (self.name, len(hits), fn_name, regex[:50]))
+        return hits[0]
+
     def _loop_span(self, fn_name, ordinal):
         ls = self._loops(fn_name)
         if ordinal >= len(ls):
